@@ -33,3 +33,36 @@ Definition shape_eqb (a b : reqshape) : bool :=
   | _, _ => false
   end.
 Definition request_eqb (a b : request) : bool := shape_eqb (shape a) (shape b) && (payload a =? payload b).
+
+(* ---- sequences of requests of arbitrary message types through one interceptor ----
+   A message type is its full name and its fields (number, text name, kind); a message value
+   lists, for every field of its type, the field number and a canonical rendering of its
+   content ("" for an unset/empty singular string).  replaceEmptyNameField looks the field up
+   by the text name "name" in the descriptor of THIS message on every call; it keeps no state
+   between calls, so a sequence is processed request by request. *)
+Inductive fkind := FString | FRepString | FOther.
+Record fdesc := mkF { fnum : Z; ftext : string; fk : fkind }.
+Record mtype := mkT { tfull : string; tfields : list fdesc }.
+Definition mvalue := list (Z * string).
+
+Definition name_field (t : mtype) : option fdesc :=
+  List.find (fun f => String.eqb (ftext f) "name") (tfields t).
+
+(* is p the (singular string) name field of type t, and empty? *)
+Definition is_empty_name (t : mtype) (p : Z * string) : bool :=
+  match name_field t with
+  | Some f => match fk f with FString => (fst p =? fnum f) && String.eqb (snd p) "" | _ => false end
+  | None => false
+  end.
+
+Definition replace_in (t : mtype) (v : mvalue) (dflt : string) : mvalue :=
+  map (fun p => if is_empty_name t p then (fst p, dflt) else p) v.
+
+(* path 0: unary interceptor; 1: stream wrapper, RecvMsg succeeded; 2: stream wrapper, RecvMsg failed *)
+Definition dstep := (Z * mtype * mvalue)%type.
+Definition run_step (dflt : string) (s : dstep) : mvalue :=
+  let '(path, t, v) := s in if path =? 2 then v else replace_in t v dflt.
+Definition run_seq (dflt : string) (steps : list dstep) : list mvalue := map (run_step dflt) steps.
+
+Definition mvalue_eqb : mvalue -> mvalue -> bool :=
+  list_eqb (fun a b => (fst a =? fst b) && String.eqb (snd a) (snd b)).
